@@ -132,6 +132,8 @@ func c16HistGen(rt *rapid.T) c16Hist {
 		case "setdesc":
 			op.T = rapid.SampledFrom([]int{-1, -1, 0, 1}).Draw(rt, "t")
 			op.F = c16GenRefs(rt, 2)
+			// a quarter of the description updates fail in the store: a refused update links nothing
+			op.Fm = rapid.SampledFrom([]string{"", "", "", "", "", "", "UserUpdate", "TopicUpdate"}).Draw(rt, "fmdesc")
 		case "setpriv":
 			// a {set desc} which changes only the requester's private note, yet carries an attachment list.
 			// Groups: N odd = sent by another subscriber (subscribed first), N even = by the owner.
@@ -681,7 +683,16 @@ func (r *c16Run) step(i int, op c16Op) *kit.Viol {
 			photo = `,"photo":{"ref":` + wJSON(res[0].url) + `}`
 		}
 		id := w.nextID()
+		if op.Fm != "" {
+			mem.A.Arm(mem.Plan{FailNth: 1, FailMethod: op.Fm})
+		}
 		fr := w.do(r.session(op.U), `{"set":{"id":"`+id+`","topic":"`+name+`","desc":{"public":{"fn":"c16 v`+fmt.Sprint(i)+`"`+photo+`}}}`+extra+`}`)
+		if op.Fm != "" {
+			mem.A.Disarm()
+			if mem.A.Fired {
+				r.cls["store-failure-at-description-update:"+op.Fm] = true
+			}
+		}
 		c := wCtrl(fr, id)
 		if c == nil || c.Code != 200 {
 			return nil
